@@ -231,6 +231,9 @@ pub struct RecvLog {
     /// the Reset has been reported once: real quinn 0.11 then treats the stream as completely read and
     /// answers Ok(None) from then on (checked on real Quinn by quinnreal)
     pub reset_reported: bool,
+    /// what this stand-in answered when it first gave a terminal answer to a read: "fin", "reset:<code>",
+    /// "lost:<error>", "closed-stream", "none-after-stop" (the adapter must report exactly that)
+    pub first_terminal: Option<String>,
 }
 
 /// A fault on the write side: from the `after`-th `poll_write` call on, every call fails.
@@ -386,7 +389,10 @@ impl RecvStream {
     }
     pub fn stop(&mut self, error_code: VarInt) -> Result<(), ClosedStream> {
         let mut g = self.log.lock().unwrap();
-        let first = g.stops.is_empty();
+        // real quinn 0.11: stop() after a read reported FIN or Reset (or after an earlier stop) -> ClosedStream
+        // (checked on real Quinn by quinnreal)
+        let over = matches!(g.first_terminal.as_deref(), Some(t) if t == "fin" || t.starts_with("reset:"));
+        let first = g.stops.is_empty() && !over;
         g.stops.push(error_code.0);
         if first {
             Ok(())
@@ -401,13 +407,35 @@ impl RecvStream {
     fn poll_chunk(&mut self, cx: &mut Context<'_>, max: usize) -> Poll<Result<Option<Chunk>, ReadError>> {
         let mut g = self.log.lock().unwrap();
         g.reads += 1;
-        if !g.stops.is_empty() {
+        if g.stops.iter().any(|_| true) && !matches!(g.first_terminal.as_deref(), Some(t) if t == "fin" || t.starts_with("reset:")) {
             // real quinn 0.11: stop() marks the stream as completely read (checked by quinnreal)
+            if g.first_terminal.is_none() {
+                g.first_terminal = Some("none-after-stop".into());
+            }
             return Poll::Ready(Ok(None));
         }
         let avail = (g.data.len() - g.pos).min(max);
         if avail == 0 {
-            return match g.end.clone().unwrap_or(RecvEnd::Open) {
+            let end = g.end.clone().unwrap_or(RecvEnd::Open);
+            // the end of the stream may not have arrived yet: the read parks and is completed by the FIN / RESET /
+            // connection loss later
+            if g.explore && end != RecvEnd::Open && g.first_terminal.is_none() && g.pendings < MAX_PENDINGS {
+                if choose(2, "quinn-read-end") == 1 {
+                    g.pendings += 1;
+                    cx.waker().wake_by_ref();
+                    return Poll::Pending;
+                }
+            }
+            if g.first_terminal.is_none() {
+                g.first_terminal = match &end {
+                    RecvEnd::Fin => Some("fin".into()),
+                    RecvEnd::Reset(c) => Some(format!("reset:{c}")),
+                    RecvEnd::ConnectionLost(e) => Some(format!("lost:{e:?}")),
+                    RecvEnd::ClosedStream => Some("closed-stream".into()),
+                    RecvEnd::Open => None,
+                };
+            }
+            return match end {
                 RecvEnd::Fin => Poll::Ready(Ok(None)),
                 RecvEnd::Reset(c) => {
                     if g.reset_reported {
